@@ -13,6 +13,13 @@
 (*   XL  anything else containing the word LIKE (NOT col LIKE .., a        *)
 (*       parenthesised sub-tree with a LIKE ...) but not the word OR       *)
 (*   XO  a parenthesised sub-tree containing the words LIKE and OR         *)
+(*   XP  a parenthesised group -- under NOT, bare, or the WHERE of a nested*)
+(*       subquery ( id IN (SELECT .. WHERE .. AND col <> '') ) -- whose    *)
+(*       text contains LIKE, no OR, and ENDS with a bare  col <> ''  right *)
+(*       before the closing parenthesis.  Rule 2's terminator is           *)
+(*       GROUP|ORDER|LIMIT|end-of-text, so the ')' keeps the inner check   *)
+(*       where it is: XP is opaque like XL.  (A paren-blind terminator     *)
+(*       would hoist the inner check out of its group / subquery.)         *)
 (* and evaluates to a Kleene value per row, independently of the others.   *)
 (* The tail is end-of-text, a keyword (ORDER BY / GROUP BY / LIMIT) or ';'.*)
 (*                                                                         *)
@@ -40,7 +47,7 @@ CONSTANTS MaxChains, MaxFactors, Emit,
 VARIABLES st
 vars == <<st>>
 
-Kinds == {"L", "E", "X", "XL", "XO"}
+Kinds == {"L", "E", "X", "XL", "XO", "XP"}
 Tails == {"end", "kw", "semi"}      \* kw: GROUP BY / ORDER BY / LIMIT (one regex alternation)
 
 \* all sequences over S of length 1..n
@@ -65,7 +72,7 @@ Rule1(ch) == [ch EXCEPT ![1] = [j \in 1..Len(ch[1]) |-> IF j = 1 THEN ch[1][2] E
 
 \* Rule 2: ... AND E <tail>
 LastChain(ch) == ch[Len(ch)]
-HasLike(f)    == f.k \in {"L", "XL", "XO"}
+HasLike(f)    == f.k \in {"L", "XL", "XO", "XP"}
 MidHasLike(ch) ==
     \/ \E i \in 1..(Len(ch) - 1) : \E j \in 1..Len(ch[i]) : HasLike(ch[i][j])
     \/ \E j \in 1..(Len(LastChain(ch)) - 1) : HasLike(LastChain(ch)[j])
